@@ -366,6 +366,7 @@ func checkC13(c *Ctx) {
 		c.ok("C13-CONS", "Lexer.PeekNextToken", "no removal", peek.Pos(), "peek leaves the queue unchanged")
 	}
 	c.checkParserStopOrder("C13-STOP")
+	c.checkLexerTokenOrder("C13-ORDER")
 	// the look-ahead helper never hands the end-of-input marker to its caller as a token
 	{
 		ok, why := c.peekContract()
@@ -791,4 +792,36 @@ func methodClosure(f *ssa.Function, T *types.Named) map[*ssa.Function]bool {
 		})
 	}
 	return out
+}
+
+// checkLexerTokenOrder: tokens reach the parser in text order. Wherever the
+// lexer both flushes its pending atom (dumpBuffer) and queues a token for the
+// construct that starts at the current rune, the flush comes first; otherwise
+// the atom written before a comment opener / bracket arrives after it, inside
+// the construct, where the parser does not expect it (it panics for comments).
+func (c *Ctx) checkLexerTokenOrder(rule string) {
+	lex := c.mustFn(rule, "Lexer.LexNextRune")
+	dump := c.fn("Lexer.dumpBuffer")
+	app := c.fn("Lexer.AppendToken")
+	if lex == nil || dump == nil || app == nil {
+		c.undecided(rule, "Lexer.LexNextRune", "flush before queueing", token.NoPos, "dumpBuffer / AppendToken not found")
+		return
+	}
+	n := 0
+	for _, a := range callsOf(lex, app) {
+		for _, d := range callsOf(lex, dump) {
+			ai, di := a.(ssa.Instruction), d.(ssa.Instruction)
+			// same straight-line region: one dominates the other and the later one is reached before the function returns to the top
+			if ai.Block() == di.Block() || (dominatesInstr(ai, di) && len(di.Block().Preds) == 1) || (dominatesInstr(di, ai) && len(ai.Block().Preds) == 1) {
+				n++
+				okOrder := dominatesInstr(di, ai)
+				c.check(okOrder, rule, "Lexer.LexNextRune", "pending atom flushed before the next token is queued", ai.Pos(),
+					"dumpBuffer precedes AppendToken on this path",
+					"a token is queued before the pending atom is flushed: the atom written before it reaches the parser after it (an atom glued to a `/*` lands inside the block comment, where the parser panics)")
+			}
+		}
+	}
+	if n < 3 {
+		c.undecided(rule, "Lexer.LexNextRune", "flush before queueing", lex.Pos(), fmt.Sprintf("only %d flush/queue pairs found", n))
+	}
 }
